@@ -224,6 +224,16 @@ SolReadResult read_sol(const std::string& path, const SolReadConfig& cfg) {
       mdl.SetLinearObjective(NLW2_ObjSenseMinimize, 0.0, c.data());
       mp::NLSolver nls(&utils);
       nls.SetFileStub(path.substr(0, path.size() - 4));
+      if (cfg.easy_history) {
+        // history: the same solver object was used for a bigger model of mixed column classes (its NL order is a permutation)
+        const int pn = n + 3;
+        std::vector<double> plb((size_t)pn, 0.0), pub((size_t)pn, 7.0), pc((size_t)pn, 2.0);
+        std::vector<int> pty((size_t)pn); for (int j = 0; j < pn; ++j) pty[(size_t)j] = (j % 3 != 2);
+        mp::NLModel prev("c14prev");
+        prev.SetCols({pn, plb.data(), pub.data(), pty.data()});
+        prev.SetLinearObjective(NLW2_ObjSenseMinimize, 0.0, pc.data());
+        (void)nls.LoadModel(static_cast<const mp::NLModel&>(prev));
+      }
       if (!nls.LoadModel(static_cast<const mp::NLModel&>(mdl))) { r.status = "easy-load-failed"; r.what = nls.GetErrorMessage(); }
       else {
         sim::write_file(path, sol_bytes);
